@@ -9,6 +9,7 @@ use crate::core::*;
 use crate::refad::{Em, R};
 use crate::rng::{mix, Fnv, Rng};
 use crate::rsx::*;
+use rateslib::dual::Number;
 use rateslib::fx::rates::{Ccy, FXRate, FXRates};
 use serde::{Deserialize, Serialize};
 use std::collections::BTreeSet;
@@ -64,6 +65,9 @@ fn gen_tod(rng: &mut Rng) -> Option<(u32, u32)> {
 pub struct Setup {
     pub quotes: Vec<Quote>,
     pub base: Option<String>,
+    /// dual quotes of one kind are re-expressed on ONE shared variable list (same Arc)
+    #[serde(default)]
+    pub share_vars: bool,
 }
 
 #[derive(Clone, Debug, Serialize, Deserialize, PartialEq)]
@@ -180,7 +184,11 @@ pub fn generate(rng: &mut Rng, tier: Tier) -> Plan {
     } else {
         None
     };
-    let setup = Setup { quotes, base };
+    let setup = Setup {
+        quotes,
+        base,
+        share_vars: !float_only && rng.chance(0.2),
+    };
 
     let nsteps = if rng.chance(0.01) && n <= 4 {
         // a long life on a small market
@@ -434,6 +442,7 @@ struct Model {
     base: Option<String>,
     /// Some(k) after an explicit SetOrder(k), until the next accepted update
     explicit_order: Option<u8>,
+    share_vars: bool,
 }
 
 enum Expect {
@@ -465,6 +474,7 @@ impl Model {
             ccys,
             base: setup.base.clone(),
             explicit_order: None,
+            share_vars: setup.share_vars,
         }
     }
 
@@ -582,6 +592,57 @@ pub fn to_fxrate(q: &Quote) -> Result<FXRate, Fail> {
         .map_err(|e| HarnessError(format!("plan number not constructible: {}", e)))?;
     FXRate::try_new(&q.lhs, &q.rhs, num, settle_ndt(q.settle, q.tod))
         .map_err(|_| HarnessError(format!("FXRate::try_new refused {}{}", q.lhs, q.rhs)).into())
+}
+
+/// Quotes to FXRate values; with `share`, all Dual (and all Dual2) quotes are re-expressed
+/// on one shared variable list each, so that operands arrive with pointer-equal storage
+/// and zero-padded coefficients.
+pub fn to_fxrates(qs: &[Quote], share: bool) -> Result<Vec<FXRate>, Fail> {
+    use rateslib::dual::{Dual, Dual2, Vars};
+    if !share {
+        return qs.iter().map(to_fxrate).collect();
+    }
+    let mut n1: Vec<String> = Vec::new();
+    let mut n2: Vec<String> = Vec::new();
+    for q in qs {
+        match &q.num {
+            Num::D { g, .. } => {
+                for (nm, _) in g {
+                    if !n1.contains(nm) {
+                        n1.push(nm.clone());
+                    }
+                }
+            }
+            Num::D2 { g, .. } => {
+                for (nm, _) in g {
+                    if !n2.contains(nm) {
+                        n2.push(nm.clone());
+                    }
+                }
+            }
+            _ => {}
+        }
+    }
+    let a1 = Dual::new(0.0, n1);
+    let a2 = Dual2::new(0.0, n2);
+    let mut out = Vec::new();
+    for q in qs {
+        let num = q
+            .num
+            .to_number()
+            .map_err(|e| HarnessError(format!("plan number not constructible: {}", e)))?;
+        let num = match num {
+            Number::Dual(d) => Number::Dual(d.to_new_vars(a1.vars(), None)),
+            Number::Dual2(d) => Number::Dual2(d.to_new_vars(a2.vars(), None)),
+            other => other,
+        };
+        out.push(
+            FXRate::try_new(&q.lhs, &q.rhs, num, settle_ndt(q.settle, q.tod)).map_err(|_| {
+                Fail::Harness(HarnessError(format!("FXRate::try_new refused {}{}", q.lhs, q.rhs)))
+            })?,
+        );
+    }
+    Ok(out)
 }
 
 pub fn ccy(name: &str) -> Result<Ccy, Fail> {
@@ -974,12 +1035,7 @@ fn probe(m: &Market, ctx: &str, step: usize, obs: &mut Obs) -> Result<(), Fail> 
 
 fn differential(m: &Market, ctx: &str) -> Result<(), Fail> {
     // a market built directly from the latest quotes (original order and base)
-    let rates: Vec<FXRate> = m
-        .model
-        .quotes
-        .iter()
-        .map(to_fxrate)
-        .collect::<Result<_, _>>()?;
+    let rates: Vec<FXRate> = to_fxrates(&m.model.quotes, m.model.share_vars)?;
     let base = match &m.model.base {
         Some(b) => Some(ccy(b)?),
         None => None,
@@ -1033,12 +1089,7 @@ pub fn execute(plan: &Plan, obs: &mut Obs) -> Result<(), Fail> {
     if plan.setup.quotes.is_empty() {
         return Err(HarnessError("empty market in plan".into()).into());
     }
-    let rates: Vec<FXRate> = plan
-        .setup
-        .quotes
-        .iter()
-        .map(to_fxrate)
-        .collect::<Result<_, _>>()?;
+    let rates: Vec<FXRate> = to_fxrates(&plan.setup.quotes, plan.setup.share_vars)?;
     let base = match &plan.setup.base {
         Some(b) => Some(ccy(b)?),
         None => None,
@@ -1131,8 +1182,7 @@ pub fn execute(plan: &Plan, obs: &mut Obs) -> Result<(), Fail> {
                 } else {
                     None
                 };
-                let rs_items: Vec<FXRate> =
-                    items.iter().map(to_fxrate).collect::<Result<_, _>>()?;
+                let rs_items: Vec<FXRate> = to_fxrates(items, plan.setup.share_vars)?;
                 let expect = mk[ti].model.expect_update(items);
                 let snapshot = call(P, "FXRates::clone", || mk[ti].fx.clone())?;
                 let before = market_digest(&mk[ti])?;
